@@ -99,6 +99,9 @@ inductive Out where
   | wu (sid inc : Nat)
   | ping (ack : Bool) (b : Bytes)
   | headers (sid : Nat) (es eh : Bool) (len : Nat) (fields : List (Bytes × Bytes)) (hpackErr : Bool := false)
+  /-- a CONTINUATION frame of a response header block (`writeHeaderBlock`); the decoded field list of the whole block is
+  printed on the frame that carries END_HEADERS, HEADERS or CONTINUATION -/
+  | cont (sid : Nat) (eh : Bool) (len : Nat) (fields : List (Bytes × Bytes)) (hpackErr : Bool := false)
   | data (sid : Nat) (es : Bool) (len : Nat) (d : Digest)
   | rst (sid code : Nat)
   | goAway (last code : Nat) (tag : String)
@@ -118,6 +121,7 @@ def Out.toString : Out → String
   | .wu sid inc => s!"WU({sid},{inc})"
   | .ping ack b => s!"PING(ack={b01 ack},{toHex b})"
   | .headers sid es eh len fs e => s!"H({sid},es={b01 es},eh={b01 eh},len={len},{fmtKV fs}{if e then ",hpack-err" else ""})"
+  | .cont sid eh len fs e => s!"C({sid},eh={b01 eh},len={len},{fmtKV fs}{if e then ",hpack-err" else ""})"
   | .data sid es len d => s!"D({sid},es={b01 es},len={len},{d.toString})"
   | .rst sid code => s!"RST({sid},{code})"
   | .goAway last code tag => s!"GA(last={last},code={code},{tag.replace " " "_"})"
